@@ -231,6 +231,13 @@ class View:
     def rect(self, n):
         return node_rect(self.lines, n)
 
+    def is_elif(self, n):
+        """`n` is written as `elif` (CPython: an If that is the whole orelse of an If and starts with that keyword)"""
+        if not isinstance(n, ast.If):
+            return False
+        r = self.rect(n)
+        return self.lines[r[0]][r[1]:r[1] + 4] == 'elif'
+
     def tok_rect(self, t):
         return (t.start[0] - 1, t.start[1], t.end[0] - 1, t.end[1])
 
@@ -246,7 +253,7 @@ class View:
 
 
 RECT_KINDS_CLEAN = ('node', 'stmt', 'newline-stmt', 'tok')
-RECT_KINDS_ALL = ('node', 'stmt', 'newline-stmt', 'tok', 'tokrange', 'intok', 'span', 'lines', 'indent', 'point',
+RECT_KINDS_ALL = ('node', 'stmt', 'newline-stmt', 'newline-stmt0', 'tok', 'tokrange', 'intok', 'span', 'lines', 'indent', 'point',
                   'random', 'header', 'stmt-tail', 'stmt-head', 'gap')
 
 
@@ -257,20 +264,27 @@ def pick_rect(v: View, rng: random.Random, kind: str):
         n = rng.choice(v.exprs)
         return v.rect(n), {'node': n}
     if kind == 'stmt' and v.stmts:
-        n = rng.choice([s for s in v.stmts if isinstance(s, ast.stmt)] or v.stmts)
+        n = rng.choice([s for s in v.stmts if isinstance(s, ast.stmt) and not v.is_elif(s)] or v.stmts)
         r = v.rect(n)
         for d in getattr(n, 'decorator_list', None) or []:
             r = min(r[:2], v.rect(d)[:2]) + r[2:]
         return r, {'stmt': n}
-    if kind == 'newline-stmt' and v.stmts:
-        # zero-width rectangle at column 0 of a line on which a statement starts: room for a new statement line
-        n = rng.choice([s for s in v.stmts if isinstance(s, ast.stmt)] or v.stmts)
+    if kind in ('newline-stmt', 'newline-stmt0') and v.stmts:
+        # room for a new statement line before a statement that is first on its line: a zero-width rectangle at
+        # column 0 of that line ('newline-stmt0'; for a statement that itself starts at column 0 this rectangle lies
+        # *inside* the statement) or at the end of the line before it ('newline-stmt')
+        n = rng.choice([s for s in v.stmts if isinstance(s, ast.stmt) and not v.is_elif(s)] or v.stmts)
         r = v.rect(n)
         if getattr(n, 'decorator_list', None):
             r = min([r[:2]] + [v.rect(d)[:2] for d in n.decorator_list]) + r[2:]
         if L[r[0]][:r[1]].strip():
             return None  # not first on its line (after `;` or on a header line)
-        return (r[0], 0, r[0], 0), {'stmt': n, 'indent': L[r[0]][:r[1]]}
+        ind = L[r[0]][:r[1]]
+        if kind == 'newline-stmt0' or (r[1] > 0 and rng.random() < 0.5):
+            return (r[0], 0, r[0], 0), {'stmt': n, 'indent': ind, 'where': 'line-start'}
+        if r[0] == 0 or L[r[0] - 1].rstrip().endswith('\\'):
+            return None
+        return (r[0] - 1, len(L[r[0] - 1]), r[0] - 1, len(L[r[0] - 1])), {'stmt': n, 'indent': ind, 'where': 'line-end'}
     if kind == 'tok' and v.toks:
         t = rng.choice(v.toks)
         return v.tok_rect(t), {'tok': t}
@@ -414,12 +428,18 @@ def pick_repl(v: View, rng: random.Random, rect, rkind: str, aux: dict, profile:
             return 'block', rng.choice(BLOCKS).format(i=ind)
         if r < (1.0 if clean else 0.6):
             return 'same', old
-    if rkind == 'newline-stmt':
+    if rkind in ('newline-stmt', 'newline-stmt0'):
         i = aux['indent']
         if r < 0.5 or not clean and r < 0.6:
-            return 'stmt-line', i + rng.choice(STMTS) + '\n'
-        if clean or r < 0.8:
-            return 'block-lines', i + rng.choice(BLOCKS).format(i=i) + '\n'
+            body = rng.choice(STMTS)
+        elif clean or r < 0.8:
+            body = rng.choice(BLOCKS).format(i=i)
+        else:
+            body = None
+        if body is not None:
+            if aux['where'] == 'line-start':
+                return 'stmt-line', i + body + '\n'
+            return 'stmt-line', '\n' + i + body
     if rkind == 'tok':
         t = aux['tok']
         tn = tokenize.tok_name[t.type]
@@ -466,7 +486,7 @@ def pick_repl(v: View, rng: random.Random, rect, rkind: str, aux: dict, profile:
 PROFILES = {
     # rect kind weights; 'clean' = classes that are quiet on the pinned tree (regressions there must not hide)
     'clean': {'node': 5, 'stmt': 4, 'newline-stmt': 4, 'tok': 3},
-    'wild': {'node': 2, 'stmt': 2, 'newline-stmt': 1, 'tok': 3, 'tokrange': 3, 'intok': 3, 'span': 3, 'lines': 3,
+    'wild': {'node': 2, 'stmt': 2, 'newline-stmt': 1, 'newline-stmt0': 1, 'tok': 3, 'tokrange': 3, 'intok': 3, 'span': 3, 'lines': 3,
              'indent': 3, 'point': 4, 'random': 3, 'header': 3, 'stmt-tail': 2, 'stmt-head': 2, 'gap': 2},
 }
 
@@ -545,7 +565,10 @@ def plan_raw_put(v: View, rng: random.Random):
     """replace(code, raw=True[, pars=False][, to=later node]) on an expression node; the requested rectangle is the
     node's own span as CPython reports it (valid for `pars=False`; with the default `pars` only when the node is not
     directly wrapped in parentheses, judged on the token stream)."""
-    c = [n for n in v.exprs if isinstance(n, ast.expr) and not isinstance(n, (ast.JoinedStr, ast.Starred))]
+    # GeneratorExp: CPython's span of a sole generator argument includes the call's parentheses, which is not the
+    # rectangle pfst documents for it -> not a target
+    c = [n for n in v.exprs if isinstance(n, ast.expr) and not isinstance(n, (ast.JoinedStr, ast.Starred,
+                                                                               ast.GeneratorExp))]
     if not c:
         return None
     n = rng.choice(c)
